@@ -51,7 +51,9 @@ RULE = ('scenarios on the virtual-time loop with the real NDNApp (v2 with the re
         'concurrent calls, non-local face (/localhop), route() with validator / raw-packet options, status-200 bodies '
         'naming another prefix or present-but-empty, answers arriving 20 ms - 3 s after the command lifetime, the clock '
         'set back 1-4 ms between two commands (oracle only), routes declared while a connection is up and between two '
-        'connections; plus ControlResponse '
+        'connections; reconnect stream: ONE application object through 2-3 connections, each on a FRESH event loop (what '
+        'run_forever() does), 2-7 concurrent calls on every connection so that the command lock is contended each time, '
+        '0-50 ms between connections, connection attempts whose face.open() fails and are retried; plus ControlResponse '
         'values with random status/text/body fields for parse_response; plus a byte-level stream: verb, local/non-local '
         'face, prefix (text prefixes and random typed components, lengths around 253), 0-15 further ControlParameters '
         'keywords (integers at width boundaries, non-ASCII text, strategy names; rarely an integer that does not fit), '
@@ -158,7 +160,61 @@ def _sm_case(rng, big):
     if gran == 1 and total >= 2 and rng.random() < 0.12:
         # the clock is set back by a few ms between two commands (the guard loop can wait that out)
         case['clock']['back'] = [rng.choice([0, 1, 2, 4]) for _ in range(total)]
+    if len(conns) > 1 and rng.random() < 0.5:
+        case['fresh_loops'] = True              # every connection on its own event loop, as run_forever() does
+    if rng.random() < 0.08:
+        rng.choice(conns)['open_fail'] = 1      # a connection attempt whose face.open() fails, then retried
+    return _v2_keep_out(case)
+
+
+# The appv2 registerer (NfdRegister) keeps ONE asyncio.Semaphore for its whole life; a semaphore belongs to the first event
+# loop it had to wait on, so on the unchanged tree a second CONTENDED connection on another event loop raises RuntimeError
+# (finding C17-6, candidate_fixes/C17-6-v2-semaphore-per-loop.*).  Until that is repaired in /repo, v2 cases on fresh
+# loops are generated with at most one contended connection.  Set to True once the lock is created per event loop.
+V2_LOCK_PER_LOOP = os.environ.get('VERIF_C17_V2_LOOPS') == '1'     # False on the unchanged tree
+
+
+def _contended(case, conn):
+    return len(conn['calls']) >= 2 or (bool(conn['calls']) and bool(case['routes']) and conn['early'])
+
+
+def _v2_keep_out(case):
+    if case['fe'] != 'v2' or V2_LOCK_PER_LOOP or not case.get('fresh_loops'):
+        return case
+    seen = False
+    for conn in case['conns']:
+        if _contended(case, conn):
+            if seen:
+                conn['calls'] = conn['calls'][:1]
+                conn['early'] = False
+            seen = True
     return case
+
+
+def _reconnect_case(rng, fe, k):
+    """one application object, two or three connections, each on a fresh event loop, the lock contended on every one"""
+    routes = rng.sample([6, 7, 8], rng.choice([0, 0, 1, 2, 3]))
+    conns = []
+    for ci in range(rng.choice([2, 2, 3])):
+        calls = [[rng.choice(['r', 'r', 'u']), rng.randrange(6)] for _ in range(rng.choice([2, 2, 3, 4, 7]))]
+        conn = {'calls': calls, 'early': rng.random() < 0.4}
+        if ci and rng.random() < 0.5:
+            conn['gap_ms'] = rng.choice([1, 2, 50])
+        if rng.random() < 0.15:
+            conn['open_fail'] = rng.choice([1, 1, 2])
+        conns.append(conn)
+    total = sum(len(c['calls']) for c in conns) + len(routes) * len(conns)
+    # mostly the plain exchange (every command answered 200 at once / after 1 ms), otherwise the usual reply kinds
+    if k % 3 == 0:
+        replies = []
+    elif k % 3 == 1:
+        replies = [{'k': 'status', 'code': 200, 'body': True, 'text': 'OK', 'sig': True, 'delay': 1} for _ in range(total)]
+    else:
+        replies = [_reply(rng) for _ in range(total)]
+    case = {'mode': 'sm', 'fe': fe, 'routes': routes, 'conns': conns, 'replies': replies,
+            'clock': {'gran': 1, 'sign': [rng.choice([0, 0, 0, 1]) for _ in range(total)] if rng.random() < 0.3 else [],
+                      'post': []}, 'fresh_loops': True}
+    return _v2_keep_out(case)
 
 
 def _by_fields(rng):
@@ -232,6 +288,14 @@ def cases(rng, tier):
                'replies': [], 'clock': {'gran': 1, 'sign': [], 'post': []}}
         yield {'mode': 'sm', 'fe': fe, 'routes': [], 'conns': [{'calls': [['r', i % 4] for i in range(8)], 'early': False}],
                'replies': [], 'clock': {'gran': 1, 'sign': [1, 0, 0, 1, 0, 0, 0, 0], 'post': []}}
+    # one application object over several connections, each on a fresh event loop, the lock contended every time
+    for fe in ('v1', 'v2'):
+        for nc in (2, 3):
+            yield _v2_keep_out({'mode': 'sm', 'fe': fe, 'routes': [6, 7], 'fresh_loops': True,
+                                'conns': [{'calls': [['r', 0], ['r', 1], ['u', 2]], 'early': bool(i % 2)} for i in range(nc)],
+                                'replies': [], 'clock': {'gran': 1, 'sign': [], 'post': []}})
+    for k in range(70 if tier == 'quick' else 2500):
+        yield _reconnect_case(rng, 'v1' if k % 2 == 0 else 'v2', k // 2)
     for _ in range(n_sm):
         yield _sm_case(rng, tier != 'quick')
     for _ in range(n_pr):
@@ -287,6 +351,9 @@ def shrink(case):
             yield dict(case, conns=conns[:ci] + [c2] + conns[ci + 1:])
         if c['early']:
             yield dict(case, conns=conns[:ci] + [dict(c, early=False)] + conns[ci + 1:])
+        for key in ('open_fail', 'gap_ms'):
+            if c.get(key):
+                yield dict(case, conns=conns[:ci] + [{k: v for k, v in c.items() if k != key}] + conns[ci + 1:])
     reps = case['replies']
     for i in range(len(reps)):
         yield dict(case, replies=reps[:i] + reps[i + 1:])
@@ -304,7 +371,7 @@ def shrink(case):
                     yield dict(case, replies=reps[:i] + [r2] + reps[i + 1:])
             yield dict(case, replies=reps[:i] + [ok] + reps[i + 1:])
     ck = case['clock']
-    for key in ('local', 'route_opts'):
+    for key in ('local', 'route_opts', 'fresh_loops'):
         if key in case:
             yield {k: v for k, v in case.items() if k != key}
     if ck.get('back'):
@@ -365,6 +432,30 @@ class _Clock:
         v = self.ms()
         self.reads.append((label, v))
         return v
+
+
+class _LoopRef:
+    """the event loop in use: every closure of the scenario talks to this; `switch()` ends the current loop the way
+    asyncio.run does (remaining tasks cancelled, loop closed) and continues on a new one at the same clock reading
+    (+ gap)"""
+
+    def __init__(self, loop):
+        object.__setattr__(self, '_cur', loop)
+
+    def __getattr__(self, k):
+        return getattr(object.__getattribute__(self, '_cur'), k)
+
+    def __setattr__(self, k, v):
+        setattr(object.__getattribute__(self, '_cur'), k, v)
+
+    def switch(self, gap=0.0):
+        old = object.__getattribute__(self, '_cur')
+        t, errs = old.time(), old.errors
+        old.shutdown()
+        new = vloop.new_loop()
+        new._vt = t + gap
+        new.errors = errs
+        object.__setattr__(self, '_cur', new)
 
 
 def _drive(coro):
@@ -634,7 +725,7 @@ def run_impl(case):
     enc, utils, sec, types, nfd_mgmt, nfd_registerer, sig_mod, ndnlp_v2 = _mods()
     import apphelp
     fe = case['fe']
-    loop = vloop.new_loop()
+    loop = _LoopRef(vloop.new_loop())
     loop._vt = 1000.0
     clock = _Clock(loop, case['clock'])
     t0 = clock.ms()
@@ -673,6 +764,13 @@ def run_impl(case):
         def __init__(self):
             super().__init__()
             self.running = False
+            self.fail_open = False
+
+        async def open(self):
+            if self.fail_open:
+                self.fail_open = False
+                raise ConnectionRefusedError('scripted')
+            self.running = True
 
         def isLocalFace(self):
             return is_local
@@ -852,7 +950,29 @@ def run_impl(case):
         dummy = (lambda *a, **k: None)
         user_tasks = []
         conn_marks = []
-        for conn in case['conns']:
+        fresh = bool(case.get('fresh_loops'))
+        for ci, conn in enumerate(case['conns']):
+            if ci:
+                if fresh:
+                    loop.switch(conn.get('gap_ms', 0) / 1000.0)
+                    note_rets([['x']])
+                elif conn.get('gap_ms'):
+                    loop.advance(loop.time() + conn['gap_ms'] / 1000.0)
+            for _ in range(conn.get('open_fail', 0)):
+                # a connection attempt that fails in face.open(): main_loop raises, nothing is connected
+                face.fail_open = True
+                att = loop.create_task(app.main_loop())
+                loop.settle()
+                try:
+                    exc = att.exception() if att.done() and not att.cancelled() else 'pending'
+                except BaseException as e:    # noqa
+                    exc = e
+                res.setdefault('failed_open', []).append(exc if isinstance(exc, str) else type(exc).__name__)
+                if not att.done():
+                    att.cancel()
+                    loop.settle()
+                if fresh:
+                    loop.switch(0.001)
             conn_marks.append(len(cmds))
             main = loop.create_task(app.main_loop())
             events.append(['o'] + list(case['routes']))
@@ -1337,6 +1457,12 @@ def tags(case, impl):
         t.append('body-present-but-empty')
     for c in case['conns']:
         t.append('calls:%d%s' % (len(c['calls']), '-early' if c['early'] and c['calls'] else ''))
+    if len(case['conns']) > 1:
+        t.append('conns:%d%s' % (len(case['conns']), '-fresh-loops' if case.get('fresh_loops') else ''))
+        if case.get('fresh_loops'):
+            t.append('%s-contended-connections:%d' % (case['fe'], sum(1 for c in case['conns'] if _contended(case, c))))
+    for x in impl.get('failed_open', []):
+        t.append('open-failed:' + str(x))
     return t
 
 
